@@ -8,6 +8,7 @@ package main
 
 import (
 	"fmt"
+	"go/types"
 
 	"golang.org/x/tools/go/ssa"
 )
@@ -63,5 +64,76 @@ func ruleDiscardedResult(keep func(string) bool) ruleFunc {
 			floor = 2
 		}
 		c.R.Floor("R1-discarded-result", n, floor)
+	}
+}
+
+// ruleDiscardedShortened: R1s.  A simplifier returns its input cut short: the
+// kept vertices are compacted to the front and the shortened slice header is
+// the result.  A call of such a function (one of the module's functions kept by
+// calleeKeep that takes a slice kind and returns the same kind) whose result is
+// dropped leaves the caller with the old length: kept vertices followed by a
+// stale tail.
+func ruleDiscardedShortened(keep, calleeKeep func(string) bool, floor int) ruleFunc {
+	return func(c *Ctx) {
+		p := c.P
+		c.R.Rule("R1s: every call of a shortening function (takes a slice kind, returns the same kind, may return it shorter) uses its result")
+		n := 0
+		for _, fn := range p.Funcs() {
+			key := ShortKey(FuncKey(fn))
+			if keep != nil && !keep(key) {
+				continue
+			}
+			ord := 0
+			for _, b := range fn.Blocks {
+				for _, in := range b.Instrs {
+					call, ok := in.(*ssa.Call)
+					if !ok {
+						continue
+					}
+					callee := call.Call.StaticCallee()
+					if callee == nil || callee.Pkg == nil || p.SSA[callee.Pkg.Pkg.Path()] == nil || !calleeKeep(ShortKey(FuncKey(callee))) {
+						continue
+					}
+					res := callee.Signature.Results()
+					if res.Len() < 1 || p.KindOf(res.At(0).Type()) == "" {
+						continue
+					}
+					if _, isSlice := res.At(0).Type().Underlying().(*types.Slice); !isSlice {
+						continue
+					}
+					takes := false
+					for _, a := range call.Call.Args {
+						if types.Identical(a.Type(), res.At(0).Type()) {
+							takes = true
+						}
+					}
+					if !takes {
+						continue
+					}
+					n++
+					cons := fmt.Sprintf("%s#call(%s)#%d", key, ShortKey(FuncKey(callee)), ord)
+					ord++
+					used := false
+					if refs := call.Referrers(); refs != nil {
+						for _, r := range *refs {
+							if ex, ok := r.(*ssa.Extract); ok {
+								if ex.Index == 0 && ex.Referrers() != nil && len(*ex.Referrers()) > 0 {
+									used = true
+								}
+								continue
+							}
+							used = true
+						}
+					}
+					if !used {
+						c.R.Bad("R1s-discarded-shortened", cons, p.InstrPos(call),
+							"the slice returned by "+ShortKey(FuncKey(callee))+" is dropped: the caller keeps the old length (kept vertices followed by a stale tail)")
+					} else {
+						c.R.OK("R1s-discarded-shortened", cons, p.InstrPos(call), "result used")
+					}
+				}
+			}
+		}
+		c.R.Floor("R1s-discarded-shortened", n, floor)
 	}
 }
